@@ -1,5 +1,6 @@
 import JokerVerif.Drive.Common
 import JokerVerif.Model.PriorValidate
+import JokerVerif.Drive.PriorDensOps
 /-! Driver handlers for C18 (validation decision logic) and C09 (densities, see `PriorDensOps`). -/
 open Lean Drive
 
@@ -172,6 +173,6 @@ def priorValidateOps : List (String × H) :=
   [("prior.validate", priorValidateOp), ("prior.default", priorDefaultOp), ("prior.data", priorDataOp),
    ("prior.jokerInit", jokerInitOp)]
 
-def priorOps : List (String × H) := priorValidateOps
+def priorOps : List (String × H) := priorValidateOps ++ priorDensOps
 
 end Drive
